@@ -652,6 +652,6 @@ def _alias_feeds(P, c: Class, meth: Func, pname):
 
 
 def check(run, P):
-    _check_main(run, P)
+    run.do(_check_main, run, P)
     from . import generic
     generic.lints(run, P, "C15")
